@@ -1246,3 +1246,67 @@ var wakeExceptions = map[string]string{
 	"SendStream.nextFrame@popNewStreamFrame":               "signals exactly when the buffered frame was popped completely (then a blocked Write may buffer again); a partially popped frame leaves a remainder and the packer is called again (onHasStreamData), which pops it and signals",
 	"SendStream.dataForWriting@getDataForWriting":          "signals when all data was taken or when the remainder became bufferable (canBufferStreamFrame); otherwise the writer's condition is still false and the packer will be back (hasMoreData)",
 }
+
+// C13.6: after a Retry every ack-eliciting 0-RTT packet sent so far is queued for retransmission, unconditionally.
+func c13RetryRequeues0RTT(c *Ctx) {
+	const R = "C13.6"
+	f := c.fn(ah, "sentPacketHandler", "ResetForRetry")
+	packets := c.obj(ah, "sentPacketHistory", "Packets")
+	appData := c.fld(ah, "sentPacketHandler", "appDataPackets")
+	isAppPackets := func(in ssa.Instruction) bool {
+		ci, ok := in.(ssa.CallInstruction)
+		if !ok || !CallsTo(packets)(in) || len(ci.Common().Args) == 0 {
+			return false
+		}
+		// receiver path goes through appDataPackets
+		v := ci.Common().Args[0]
+		for d := 0; d < 5 && v != nil; d++ {
+			if fl, base := loadedField(v); fl != nil {
+				if fl == appData {
+					return true
+				}
+				v = base
+				continue
+			}
+			if fa, ok := v.(*ssa.FieldAddr); ok {
+				if fieldOfAddr(fa) == appData {
+					return true
+				}
+				v = fa.X
+				continue
+			}
+			break
+		}
+		return false
+	}
+	c.Floor(R, "iterations over the 0-RTT packet history in ResetForRetry", countInstr(f, isAppPackets), 1)
+	c.cut(R, "pair:Retry ⇒ outstanding 0-RTT packets are requeued on every path", &Cut{Fn: f, Target: isReturn, Barrier: isAppPackets},
+		"the server dropped all 0-RTT packets when it sent the Retry; whether or not a PTO fired before the Retry arrived, they must be retransmitted (the history is reset right after)")
+}
+
+// C16.7: the connection-ID generator of a server connection tracks the ID under which the connection is routed;
+// retiring an ID always removes it from the active set.
+func c16RoutedIDTracked(c *Ctx) {
+	const R = "C16.7"
+	ctor := c.funcVar("", "newConnection")
+	ncg := c.obj("", "", "newConnIDGenerator")
+	n := 0
+	for _, in := range findInstrsLocal(ctor, CallsTo(ncg)) {
+		n++
+		args := in.(ssa.CallInstruction).Common().Args
+		ok := len(args) >= 3 && isParamCell(args[2], "clientDestConnID")
+		c.Check(ok, R, "origin:newConnection hands the routed client destination connection ID to the generator", c.P.InstrPos(in),
+			"the server routes the connection under the DCID of the client's current Initial (after a Retry that is the Retry SCID, not the original DCID); the generator must retire and release exactly that ID")
+	}
+	c.Floor(R, "newConnIDGenerator calls in newConnection", n, 1)
+	ret := c.fn("", "connIDGenerator", "Retire")
+	q := c.obj("", "connIDGenerator", "queueConnIDForRetiring")
+	active := c.fld("", "connIDGenerator", "activeSrcConnIDs")
+	isDel := func(in ssa.Instruction) bool {
+		cl, ok := in.(*ssa.Call)
+		return ok && builtinName(&cl.Call) == "delete" && Load(active)(cl.Call.Args[0])
+	}
+	c.Floor(R, "queueConnIDForRetiring calls in Retire", countInstr(ret, CallsTo(q)), 1)
+	c.cut(R, "pair:a retired connection ID leaves the active set", &Cut{Fn: ret, Start: CallsTo(q), Target: isReturn, Barrier: isDel},
+		"an ID queued for removal that stays in activeSrcConnIDs is routed again by AddConnRunner / ReplaceWithClosed after its retirement period")
+}
